@@ -1078,7 +1078,7 @@ pub fn run_step(env: &Env, ctx: &mut ThreadCtx, idx: usize, step: &Step) -> Step
 		return StepEnd::Aborted;
 	}
 	// C06: the key is obtainable iff it is not alive
-	if executed && !env.opts.faults {
+	if executed {
 		probe_key(env, ctx, ctx.key_alive(), "after step");
 	}
 	StepEnd::Continue
